@@ -165,6 +165,12 @@ class Executor:
       if isinstance(vals,Exc): yield st1,vals
       else: yield st1,Tup(vals)
 
+  def ev_Dict(s,e,st):
+    from . import symcoll
+    if e.keys: raise Unsupported(f"non-empty dict literal at line {e.lineno}")
+    st=st.fork(); r=st.alloc('dict'); st.heap[(r.id,'dom')]=symcoll.EMPTY; st.heap[(r.id,'val')]=z3.K(symcoll.Obj,symcoll.Obj.none)
+    st.heap[(r.id,'key')]=symcoll.ObjK(); st.heap[(r.id,'vt')]=symcoll.ObjK(); st.heap[(r.id,'default')]=None
+    yield st,r
   def ev_List(s,e,st):
     for st1,vals in s.evs(e.elts,st):
       if isinstance(vals,Exc): yield st1,vals
@@ -479,6 +485,7 @@ class Executor:
     if isinstance(a,Cls) and isinstance(b,Cls): return z3.BoolVal(a.name==b.name)
     if isinstance(a,B) and isinstance(b,B): return a.t==b.t
     if isinstance(a,Opq) and isinstance(b,Opq) and a.kind==b.kind: return a.t==b.t
+    if isinstance(a,Opq) and isinstance(b,Opq) and 'obj' in (a.kind,b.kind) and z3.is_expr(a.t) and z3.is_expr(b.t) and a.t.sort()==b.t.sort(): return a.t==b.t
     if type(a)!=type(b): return z3.BoolVal(False)
     return None
 
@@ -846,9 +853,18 @@ class Executor:
       al=getattr(getattr(s,'contract',None),'abstract_lists',())
       if al and isinstance(v,Ref) and v.cls=='list' and (v.id,'items') in st1.heap and any(isinstance(t,ast.Name) and t.id in al for t in n.targets):
         from . import symcoll
-        arr=symcoll.EMPTY
-        for x in st1.heap[(v.id,'items')]: arr=z3.Store(arr,symcoll.to_obj(x,st1),True)
-        v=symcoll.new_setlist(st1,arr)
+        kind=[al[t.id] for t in n.targets if isinstance(t,ast.Name) and t.id in al][0] if isinstance(al,dict) else 'set'
+        if kind.startswith('keyed:'):
+          # a list of sets, represented as the set-valued dict {key: set} with the key expression evaluated at every append
+          if st1.heap[(v.id,'items')]: raise Unsupported("non-empty literal for a keyed list of sets")
+          r=st1.alloc('dict'); st1.heap[(r.id,'dom')]=symcoll.EMPTY; st1.heap[(r.id,'val')]=z3.K(symcoll.Obj,symcoll.EMPTY)
+          st1.heap[(r.id,'key')]=symcoll.ObjK(); st1.heap[(r.id,'vt')]=symcoll.SetOf(symcoll.ObjK()); st1.heap[(r.id,'default')]=None
+          st1.heap[(r.id,'keyexpr')]=kind[6:]; v=r
+        else:
+          arr=symcoll.EMPTY
+          for x in st1.heap[(v.id,'items')]: arr=z3.Store(arr,symcoll.to_obj(x,st1),True)
+          v=symcoll.new_setlist(st1,arr)
+          if kind=='bag': st1.heap[(v.id,'bag')]=True
       def go(ts,st):
         if not ts: yield st,None; return
         for st2,ctl in s.assign(ts[0],v,st):
